@@ -679,6 +679,14 @@ func getReferenceModificationsFromSet(dbModel *model.DatabaseModel, table, uuid,
 		return nil
 	}
 
+	// an optional value (max 1) is replaced rather than toggled, so the
+	// old value, if any, is no longer referenced
+	if len(modify.GoSet) > 0 && len(old.GoSet) > 0 {
+		if c := dbModel.Schema.Table(table).Column(column); c != nil && c.TypeObj.Max() == 1 {
+			value = ovsdb.OvsSet{GoSet: append(append([]interface{}{}, modify.GoSet...), old.GoSet...)}
+		}
+	}
+
 	spec := database.ReferenceSpec{ToTable: refTable, FromTable: table, FromColumn: column}
 	from := uuid
 	refs := database.References{spec: database.Reference{}}
